@@ -110,6 +110,8 @@ def lt(op, input, other):
         and not input.qtype.is_floating_point
         and not other.qtype.is_floating_point
         and torch.equal(input._scale, other._scale)
+        # The order of the values is the order of the integer data for positive scales only (a null scale maps all data to zero)
+        and bool((input._scale > 0).all())
     ):
         return op(input._data, other._data)
     return qfallback(op, input, other)
